@@ -31,6 +31,9 @@ type InstanceCfg struct {
 }
 
 type Config struct {
+	// TwoFaced: every Byzantine member is run as two real participants, one per
+	// partition side, each supporting what that side proposes
+	TwoFaced  bool
 	NN        gpbft.NetworkName
 	First     uint64
 	Instances []InstanceCfg
@@ -116,6 +119,11 @@ type Decision struct {
 // Node is one honest participant and everything observed about it.
 type Node struct {
 	W        *World
+	// Byz marks a "personality" of a Byzantine member: a real participant that the
+	// coalition runs once per partition side (two-faced adversary). It is never
+	// checked by monitors and its decisions do not count.
+	Byz      bool
+	Group    int
 	Idx      int
 	ID       gpbft.ActorID
 	P        *gpbft.Participant
@@ -139,6 +147,10 @@ type Node struct {
 type World struct {
 	Cfg     *Config
 	Nodes   []*Node
+	// Personas are the two-faced Byzantine personalities (Idx continues after Nodes)
+	Personas []*Node
+	// Group is the partition side of every honest node (index into Nodes)
+	Group map[int]int
 	ByIdx   map[gpbft.ActorID]int
 	Now     time.Time
 	Pool    []*Pending
@@ -216,7 +228,17 @@ func (h *host) GetProposal(_ context.Context, instance uint64) (*gpbft.Supplemen
 		}
 		base = d.J.Vote.Value.Head()
 	}
-	chain := PathChain(base, ic.Paths[n.ID])
+	path := ic.Paths[n.ID]
+	if n.Byz {
+		// a personality proposes what its side proposes
+		for i, h := range n.W.Nodes {
+			if n.W.Group[i] == n.Group {
+				path = ic.Paths[h.ID]
+				break
+			}
+		}
+	}
+	chain := PathChain(base, path)
 	n.Bases[instance] = base
 	// the participant proposes at most ChainMaxLen tipsets of what the host returns
 	n.Inputs[instance] = chain.Prefix(gpbft.ChainMaxLen - 1)
@@ -254,9 +276,16 @@ func (h *host) RequestBroadcast(mb *gpbft.MessageBuilder) error {
 		return err
 	}
 	s := &Sent{From: n.ID, Msg: msg, At: n.W.Now, Step: n.W.Step}
+	n.byInst[gpbft.Instant{ID: msg.Vote.Instance, Round: msg.Vote.Round, Phase: msg.Vote.Phase}] = msg
+	if n.Byz {
+		n.Sent = append(n.Sent, s)
+		n.W.ByzEverSent = true
+		n.W.Stats.ByzSent++
+		n.W.enqueueFromPersona(n, msg)
+		return nil
+	}
 	n.Mon.onBroadcast(s)
 	n.Sent = append(n.Sent, s)
-	n.byInst[gpbft.Instant{ID: msg.Vote.Instance, Round: msg.Vote.Round, Phase: msg.Vote.Phase}] = msg
 	if msg.Vote.Round > n.W.Stats.MaxRound {
 		n.W.Stats.MaxRound = msg.Vote.Round
 	}
@@ -272,6 +301,10 @@ func (h *host) RequestRebroadcast(in gpbft.Instant) error {
 		return nil
 	}
 	n.W.Stats.Rebroadcasts++
+	if n.Byz {
+		n.W.enqueueFromPersona(n, msg)
+		return nil
+	}
 	n.W.enqueueAll(msg, false)
 	return nil
 }
@@ -286,7 +319,7 @@ func (h *host) SetAlarm(at time.Time) {
 func (h *host) ReceiveDecision(_ context.Context, j *gpbft.Justification) (time.Time, error) {
 	n := h.n
 	inst := j.Vote.Instance
-	if prev, ok := n.Decided[inst]; ok {
+	if prev, ok := n.Decided[inst]; ok && !n.Byz {
 		n.W.Fail("C01", "C01/decision/reported-twice", fmt.Sprintf("node %d reported a second decision for instance %d (first at step %d)", n.ID, inst, prev.Step))
 	}
 	n.Decided[inst] = &Decision{Instance: inst, J: j, Step: n.W.Step, Round: n.P.Progress().Round}
@@ -327,12 +360,66 @@ func NewWorld(cfg *Config, fail func(id, sig, msg string)) (*World, error) {
 		w.Nodes = append(w.Nodes, n)
 		w.ByIdx[id] = i
 	}
+	w.Group = map[int]int{}
+	if cfg.TwoFaced {
+		for i := range w.Nodes {
+			if i >= len(w.Nodes)/2 {
+				w.Group[i] = 1
+			} else {
+				w.Group[i] = 0
+			}
+		}
+		for g := 0; g < 2; g++ {
+			for _, id := range cfg.Byz {
+				n := &Node{W: w, Byz: true, Group: g, Idx: len(w.Nodes) + len(w.Personas), ID: id, Decided: map[uint64]*Decision{}, Bases: map[uint64]*gpbft.TipSet{}, Inputs: map[uint64]*gpbft.ECChain{}, byInst: map[gpbft.Instant]*gpbft.GMessage{}}
+				n.Mon = newMonitor(n)
+				opts := append([]gpbft.Option{}, cfg.Options...)
+				p, err := gpbft.NewParticipant(&host{n: n}, opts...)
+				if err != nil {
+					return nil, err
+				}
+				n.P = p
+				w.Personas = append(w.Personas, n)
+			}
+		}
+	}
 	return w, nil
+}
+
+// At returns the node (honest or persona) with global index i.
+func (w *World) At(i int) *Node {
+	if i < len(w.Nodes) {
+		return w.Nodes[i]
+	}
+	return w.Personas[i-len(w.Nodes)]
 }
 
 func (w *World) enqueueAll(msg *gpbft.GMessage, fromByz bool) {
 	for i := range w.Nodes {
 		w.enqueue(msg, i, fromByz)
+	}
+	// personalities only listen to the honest participants of their own side
+	if from, ok := w.ByIdx[msg.Sender]; ok && !fromByz {
+		for _, pn := range w.Personas {
+			if pn.Group == w.Group[from] {
+				w.enqueue(msg, pn.Idx, false)
+			}
+		}
+	}
+}
+
+// enqueueFromPersona: a personality talks only to its own side (and to the
+// coalition's other personalities of that side, itself included).
+func (w *World) enqueueFromPersona(pn *Node, msg *gpbft.GMessage) {
+	for i := range w.Nodes {
+		if w.Group[i] == pn.Group {
+			w.enqueue(msg, i, true)
+		}
+	}
+	for _, o := range w.Personas {
+		if o.Group == pn.Group {
+			w.enqueue(msg, o.Idx, true)
+		}
 	}
 }
 
@@ -349,6 +436,10 @@ func (w *World) tracef(f string, a ...any) {
 
 // call wraps an API invocation on a node and checks clause (d)/(c) of C07.
 func (n *Node) call(kind string, f func() error) {
+	if n.Byz {
+		_ = f()
+		return
+	}
 	n.inCall, n.alarmInCall, n.curCall = true, false, kind
 	before := n.P.Progress()
 	err := f()
@@ -359,7 +450,7 @@ func (n *Node) call(kind string, f func() error) {
 
 // Start starts node i at the first instance.
 func (w *World) Start(i int) {
-	n := w.Nodes[i]
+	n := w.At(i)
 	if n.Started {
 		return
 	}
@@ -372,7 +463,7 @@ func (w *World) Start(i int) {
 // FireAlarm delivers node i's alarm; the clock moves to the alarm time if it
 // is still in the future (timers may be late, never early).
 func (w *World) FireAlarm(i int) {
-	n := w.Nodes[i]
+	n := w.At(i)
 	if !n.AlarmSet {
 		return
 	}
@@ -409,11 +500,14 @@ func (w *World) Drop(k int) {
 	w.Pool = append(w.Pool[:k], w.Pool[k+1:]...)
 	w.Stats.Dropped++
 	w.Step++
-	w.tracef("drop %s -> node %d", DescribeMsg(p.Msg), w.Nodes[p.To].ID)
+	w.tracef("drop %s -> node %d", DescribeMsg(p.Msg), w.At(p.To).ID)
 }
 
 func (w *World) deliver(p *Pending) {
-	n := w.Nodes[p.To]
+	if p.To >= len(w.Nodes)+len(w.Personas) {
+		return // addressed to a personality that no longer exists
+	}
+	n := w.At(p.To)
 	w.Step++
 	if !n.Started {
 		// a host that has not started its participant yet still validates and queues
@@ -426,7 +520,7 @@ func (w *World) deliver(p *Pending) {
 	if err != nil {
 		if p.FromByz {
 			w.Stats.ByzRejected++
-		} else if errors.Is(err, gpbft.ErrValidationInvalid) {
+		} else if errors.Is(err, gpbft.ErrValidationInvalid) && !n.Byz {
 			w.Stats.InvalidByHonest++
 			w.Fail("C07", "C07/b/honest-message-branded-invalid", fmt.Sprintf("message %s emitted by honest node %d was judged invalid by honest node %d: %v", DescribeMsg(p.Msg), p.Msg.Sender, n.ID, err))
 		}
@@ -437,11 +531,15 @@ func (w *World) deliver(p *Pending) {
 		w.tracef("reject %s -> node %d: %s", DescribeMsg(p.Msg), n.ID, classOf(err))
 		return
 	}
-	if p.FromByz {
+	if p.FromByz && !n.Byz {
 		w.Stats.ByzAccepted++
 	}
 	w.Stats.Delivered++
 	w.tracef("deliver %s -> node %d (progress %v)", DescribeMsg(p.Msg), n.ID, fmtInstant(n.P.Progress().Instant))
+	if n.Byz {
+		_ = n.P.ReceiveMessage(context.Background(), vm)
+		return
+	}
 	n.Mon.onDeliver(msg, p.FromByz)
 	n.call("message", func() error { return n.P.ReceiveMessage(context.Background(), vm) })
 }
